@@ -17,7 +17,7 @@ fn menu() -> Vec<Sig> {
     vec![
         Sig::inp("A", 4, 0),
         Sig::out("A", 4),
-        Sig::bidir("A", 4, V::Num(2)),
+        Sig::bidir("A", 4, V::Num(18)),
         Sig::inp("B", 4, 1),
         Sig::out("Q", 4),
         Sig::inp("Q", 4, 0),
